@@ -316,6 +316,29 @@ Proof.
   - exfalso. pose proof (find_none _ _ Hf _ Hvs). congruence.
 Qed.
 
+(* With the repaired matcher the order (and duplication) of the stored version list is
+   irrelevant: any list with the same elements gives the same answer.  (This is why the check does
+   not insist on `sort(); dedup()` for the repaired tree.) *)
+Theorem lookup_fix_any_order idx man a d vs' :
+  valid_solution idx man a = true -> edge idx man a d ->
+  (forall x, In x vs' <-> In x (vers_of a (dpkg d))) ->
+  exists w, find (matches_fix (dreq d)) vs' = Some w
+         /\ alookup (dep_key d) a = Some w /\ satisfies (dreq d) w = true.
+Proof.
+  intros Hv He Hsame. destruct (edge_assigned _ _ _ _ Hv He) as (w & Hl & Hin & Hsat & Hvs & Hip).
+  exists w. repeat split; auto.
+  assert (Hmw : matches_fix (dreq d) w = true).
+  { rewrite <- solver_view_is_matches_fix, solver_view_is_satisfies. exact Hsat. }
+  destruct (find (matches_fix (dreq d)) vs') as [x|] eqn:Hf.
+  - apply find_some in Hf as [Hx Hmx]. apply Hsame in Hx. f_equal.
+    eapply one_version_per_class; eauto.
+    rewrite <- solver_view_is_matches_fix in Hmx, Hmw. unfold solver_view in *.
+    apply andb_true_iff in Hmx as [Hbx _]. apply andb_true_iff in Hmw as [Hbw _].
+    rewrite <- (bucket_contains_unique _ _ (bucket_of_req_wf _) Hbx).
+    now rewrite <- (bucket_contains_unique _ _ (bucket_of_req_wf _) Hbw).
+  - exfalso. apply Hsame in Hvs. pose proof (find_none _ _ Hf _ Hvs). congruence.
+Qed.
+
 (* ------------------------------------------------------------------ the lookup, unchanged matcher *)
 
 (* A release of the same package in ANOTHER bucket that passes the unchanged matcher sorts after
